@@ -193,8 +193,11 @@ func genCluster(seed uint64, tier, variant string) any {
 			if cl.Stable && a != sh.Master && r.IntN(6) == 0 {
 				o.Health = pick(r, "fail", "loading")
 			}
-			// (primaries keep a real endpoint: a MOVED that names a node with an empty host (":7004") is not followed by
-			// rueidis - it dials ":7004" - which is outside the properties checked here; see DESIGN.md)
+			// a primary that is listed and named in redirects without a host ("MOVED 3999 :7004"): the client must use
+			// the endpoint of the node that answered (defect repaired, see DESIGN.md 15.4)
+			if a == sh.Master && r.IntN(6) == 0 {
+				o.Endpoint = pick(r, "empty", "null")
+			}
 			cl.Nodes[a] = o
 		}
 	}
@@ -1164,6 +1167,16 @@ func parseRedirect(v resp.Value) (kind, addr string) {
 	return "", ""
 }
 
+// resolveRedirect: a redirect without a host (":7004") names the endpoint of the node that answered, on that port.
+func resolveRedirect(answeredBy, to string) string {
+	if strings.HasPrefix(to, ":") {
+		if i := strings.LastIndexByte(answeredBy, ':'); i > 0 {
+			return answeredBy[:i] + to
+		}
+	}
+	return to
+}
+
 func isRetryErr(v resp.Value) bool {
 	return v.IsErr() && (strings.HasPrefix(v.S, "LOADING") || strings.HasPrefix(v.S, "TRYAGAIN") || strings.HasPrefix(v.S, "CLUSTERDOWN"))
 }
@@ -1220,6 +1233,7 @@ func (ce *clusterEnv) judge() {
 		}
 		a := &clAttempt{ex: ex}
 		a.redirect, a.to = parseRedirect(ex.Reply)
+		a.to = resolveRedirect(ex.Node, a.to)
 		a.retryErr = isRetryErr(ex.Reply)
 		arrivals[uid] = append(arrivals[uid], a)
 		if !ex.Queued && !ex.Reply.IsErr() {
@@ -1228,6 +1242,7 @@ func (ce *clusterEnv) judge() {
 	}
 	for _, ex := range w.Log {
 		if kind, addr := parseRedirect(ex.Reply); kind == "MOVED" {
+			addr = resolveRedirect(ex.Node, addr)
 			if f := strings.Fields(ex.Reply.S); len(f) == 3 {
 				if sl, err := strconv.Atoi(f[1]); err == nil {
 					ce.named[sl] = append(ce.named[sl], namedOwner{seq: ex.Seq, addr: addr})
